@@ -26,7 +26,14 @@ func runC22(c *eng.Ctx) {
 	p := c.P
 	wr := p.MethodOn("tsdb:Head.lastSeriesID", "Store", "Inc", "Add", "Dec", "Sub", "Swap", "CompareAndSwap")
 	// ---- R1 one monotonic source of series ids ----
-	c.OnlyIn("R1", wr, 6, "tsdb:Head.getOrCreateWithOptionalID", "tsdb:Head.loadWAL", "tsdb:Head.loadChunkSnapshot", "tsdb:Head.Init")
+	c.OnlyIn("R1", wr, 7, "tsdb:Head.getOrCreateWithOptionalID", "tsdb:Head.loadWAL", "tsdb:Head.loadChunkSnapshot", "tsdb:Head.Init", "tsdb:Head.loadMmappedChunks")
+	{
+		// references met in the head-chunk files only raise the counter (finding F62, repaired)
+		lm := c.Fn("tsdb:Head.loadMmappedChunks").InnerClosure("iterate", wr)
+		lm.Only("R1", wr, "is a Store guarded by lastSeriesID.Load() < ref (only raised)", func(l eng.Loc) bool {
+			return eng.CallMethodName(l) == "Store" && lm.UnderCond(l, "lastSeriesID.Load()", "<")
+		})
+	}
 	c.Fn("tsdb:Head.getOrCreateWithOptionalID").Only("R1", wr, "is an Inc()", func(l eng.Loc) bool { return eng.CallMethodName(l) == "Inc" })
 	{
 		f := c.Fn("tsdb:Head.loadWAL")
